@@ -20,9 +20,17 @@ func init() {
 					{Fn: "Harness_C20_sequence", Tiers: "both", Reach: []string{"end"}, Bounds: b + "; two consecutive reports, the first with any bound kind, the second with any bound kind or none; sync.Pool modelled as a LIFO that never drops items"},
 					{Fn: "Harness_C20_two_options", Tiers: "both", Reach: []string{"end"}, Bounds: b + "; one report with two bounds of different kinds"},
 				},
+			}, {
+				PkgPath: "honnef.co/go/tools/lintcmd",
+				PkgDir:  "lintcmd",
+				PkgName: "lintcmd",
+				Files:   []string{"chain.go"},
+				Entries: []Entry{
+					{Fn: "Harness_C20_chain", Tiers: "both", Reach: []string{"end"}, Bounds: "-go absent or 1.N, module go 1.N, file //go:build go1.N absent or present, N in {9, 20, 21, 22, 26}; bound go1.N with symbolic digits, all four bound kinds; flag parsing, loader, parser and go/types executed in the engine"},
+				},
 			}},
 			Assumptions: []string{
-				"types.Info.FileVersions (the language version go/types recorded for the file) and types.Package.GoVersion (module go directive or -go flag) are trusted inputs; how the loader derives them is outside the claim",
+				"kernel harnesses: types.Info.FileVersions and types.Package.GoVersion are inputs; how the loader derives them from the -go flag, go.mod and build constraints is covered by Harness_C20_chain only for the listed thresholds",
 				"versions are of the form go1.N, 0 <= N <= 99, no patch or pre-release suffix",
 			},
 		}
